@@ -81,6 +81,8 @@ pub struct VolState {
     pub mounted: bool,
     /// (count, hint) stored in FSInfo when the volume was opened, ground-truth free count then
     pub info_at_mount: Option<(u32, u32, u32)>,
+    /// did the hint stored at mount name a free cluster
+    pub hint_named_free_at_mount: bool,
     pub fat_changed_since_mount: bool,
     /// lost clusters already reported (a leak is reported when it grows)
     pub lost_seen: u32,
@@ -278,7 +280,7 @@ impl<'a> World<'a> {
             let used = fat.used_count();
             let free = fat.free_count();
             let next_dir = tree.dirs.len() as u32;
-            vols.push(VolState { geom: o.geom.clone(), mbr_slot: v.slot, fat, used, free, dirs, next_dir, mounted: false, info_at_mount: None, fat_changed_since_mount: false, lost_seen: 0, min_free_since_mount: free });
+            vols.push(VolState { geom: o.geom.clone(), mbr_slot: v.slot, fat, used, free, dirs, next_dir, mounted: false, info_at_mount: None, hint_named_free_at_mount: false, fat_changed_since_mount: false, lost_seen: 0, min_free_since_mount: free });
         }
         let mk = |n: usize| n + 1;
         World {
@@ -321,7 +323,8 @@ impl<'a> World<'a> {
     }
 
     pub fn violate(&mut self, prop: &'static str, oracle: &str, disc: &str, detail: String) {
-        if self.viols.len() < 32 {
+        // the cap is per property: a flood of one property's findings must not hide another's
+        if self.viols.iter().filter(|v| v.prop == prop).count() < 12 {
             self.viols.push(Violation { prop, oracle: oracle.to_string(), disc: disc.to_string(), detail, op_idx: self.op_idx });
         }
     }
